@@ -90,6 +90,26 @@ func (s *RPCServer) handle(w http.ResponseWriter, r *http.Request) {
 		http.Error(w, err.Error(), http.StatusBadRequest)
 		return
 	}
+	if t := bytes.TrimSpace(body); len(t) > 0 && t[0] == '[' {
+		// a batch (rpcclient's batch mode): answer every member
+		var reqs []rpcReq
+		if err := json.Unmarshal(t, &reqs); err != nil {
+			http.Error(w, err.Error(), http.StatusBadRequest)
+			return
+		}
+		resps := make([]rpcResp, 0, len(reqs))
+		for i := range reqs {
+			s.mu.Lock()
+			s.Calls[reqs[i].Method]++
+			s.mu.Unlock()
+			res, e := s.answer(&reqs[i])
+			resps = append(resps, rpcResp{Result: res, Error: e, ID: reqs[i].ID})
+		}
+		out, _ := json.Marshal(resps)
+		w.Header().Set("Content-Type", "application/json")
+		w.Write(out)
+		return
+	}
 	var req rpcReq
 	if err := json.Unmarshal(body, &req); err != nil {
 		http.Error(w, err.Error(), http.StatusBadRequest)
@@ -140,6 +160,46 @@ func (s *RPCServer) answer(req *rpcReq) (interface{}, *rpcErr) {
 		return map[string]interface{}{
 			"chain": "regtest", "blocks": tip.Height, "headers": tip.Height,
 			"bestblockhash": tip.Hash.String(), "pruned": false,
+		}, nil
+
+	case "getbestblockhash":
+		return s.c.Tip().Hash.String(), nil
+
+	case "getrawmempool":
+		return []string{}, nil
+
+	case "getblockheader":
+		h, e := s.hashParam(req)
+		if e != nil {
+			return nil, e
+		}
+		verbose := true
+		if len(req.Params) >= 2 {
+			_ = json.Unmarshal(req.Params[1], &verbose)
+		}
+		blk, ok := s.c.ByHash(h)
+		if !ok {
+			return nil, &rpcErr{-5, "Block not found"}
+		}
+		hdr := blk.Msg.Header
+		hdr.Timestamp = blk.Time
+		if !verbose {
+			var buf bytes.Buffer
+			if err := hdr.Serialize(&buf); err != nil {
+				return nil, &rpcErr{-1, err.Error()}
+			}
+			return hex.EncodeToString(buf.Bytes()), nil
+		}
+		conf := int64(-1)
+		if at := s.c.At(blk.Height); at != nil && at.Hash == blk.Hash {
+			conf = int64(s.c.Tip().Height-blk.Height) + 1
+		}
+		return map[string]interface{}{
+			"hash": blk.Hash.String(), "confirmations": conf, "height": blk.Height,
+			"version": hdr.Version, "versionHex": fmt.Sprintf("%08x", hdr.Version),
+			"merkleroot": hdr.MerkleRoot.String(), "time": blk.Time.Unix(),
+			"nonce": uint64(hdr.Nonce), "bits": fmt.Sprintf("%08x", hdr.Bits), "difficulty": 1.0,
+			"previousblockhash": hdr.PrevBlock.String(),
 		}, nil
 
 	case "getnetworkinfo":
